@@ -102,7 +102,15 @@ pub fn apply_load_balancing_policy(
     let mut bin_totals = vec![0.0; parallelism];
     let mut assignments: Vec<Vec<&serde_json::Value>> = vec![vec![]; parallelism];
     for q in queries.iter() {
-        let w = q.get_query_weight_estimate()?.unwrap_or(default);
+        // the estimate is only a scheduling hint. a query that carries a malformed one is still
+        // answered (with the default weight) instead of failing the whole batch.
+        let w = match q.get_query_weight_estimate() {
+            Ok(estimate) => estimate.unwrap_or(default),
+            Err(e) => {
+                log::warn!("ignoring query weight estimate: {}", e);
+                default
+            }
+        };
         let min_bin = min_bin(&bin_totals)?;
         bin_totals[min_bin] += w;
         assignments[min_bin].push(q);
